@@ -44,6 +44,13 @@ CLAIMED["C11"] = dict(
     note="Trusted: R2 (mc/ref/affine.py). Angle operations compared with 1e-9 relative tolerance, rational ones exactly.",
     design="DESIGN.md 3/C11",
 )
+CLAIMED["C08"] = dict(
+    level="exploration",
+    technique="bounded-exhaustive enumeration of reference-sharing documents (gradient setups x colliding ids x referrer sequences) with a reference-graph oracle on the output",
+    text="Every document of a bounded grammar of reference-complete sources (gradient setups incl. href chains, pre-existing ids colliding with generated ids, every sequence of up to 2/3 referrers of 10 kinds incl. invisible ones, stroked shapes with ids, use instancing, nested svg, clipPath) is converted; the output's reference graph is rebuilt with the stdlib XML parser and checked for unique ids, resolvable url(#..) into defs gradients, no unreferenced gradient, no href.",
+    note="Trusted: the reference-graph extraction (mc/props/c08.py). Bounded: <= 3 referrers, 2-3 gradients.",
+    design="DESIGN.md 3/C08",
+)
 NOT_YET = "check not built yet in this session (design in DESIGN.md section 3); no claim is made"
 
 checks = []
